@@ -182,6 +182,12 @@ func (c CurlyRouter) computeWebserviceScore(requestTokens []string, tokens []str
 				if matchesToken, _ := c.regularMatchesPathToken(other, colon, each); !matchesToken {
 					return false, score
 				}
+			} else if end := strings.Index(other, "}"); end != -1 && end < len(other)-1 {
+				// {var}suffix ; the token must end with the literal suffix and leave a non-empty value
+				suffix := other[end+1:]
+				if len(each) <= len(suffix) || !strings.HasSuffix(each, suffix) {
+					return false, score
+				}
 			}
 			score += 1
 		} else {
